@@ -333,7 +333,7 @@ theorem agree_step {r : Rep} {s : St} (ha : Agree r s.subs s.topics) (hv : Inv s
     split <;> simpa [replay_nil] using ha
   | sizes => simpa [step, replay_nil] using ha
 
-theorem agree_empty (l : Nat) : Agree Rep.empty (init l).subs (init l).topics := by
+theorem agree_empty (l : Int) : Agree Rep.empty (init l).subs (init l).topics := by
   constructor <;> simp [Rep.empty, init, AMap.has, AMap.get, cntS]
 
 theorem run_fst (s : St) (ops : List Op) : (run s ops).1 = final s ops := by
